@@ -145,6 +145,29 @@ def run_case(case):
                 pass
             site = type(m).__name__ if target in ("forward", "inverse") else "Flow." + ("log_prob" if target == "log_prob" else "transform_to_noise")
 
+            noise_floor = []
+
+            def noise():
+                """relative change of the full-batch results when the inputs move by a few ulps: where the map amplifies rounding by
+                1e10 (six features each squeezed by e^-7, inverted) the batched and the row-wise BLAS paths legitimately differ"""
+                if not noise_floor:
+                    rel = 8 * (2.2e-16 if case["precise"] else 1.2e-7)
+                    worst = [0.0] * len(full)
+                    for sgn in (-1.0, 1.0):
+                        try:
+                            pert = f0(Xn * (1 + sgn * rel), Cn * (1 + sgn * rel) if Cn is not None else None)
+                        except Exception:
+                            worst = [float("inf")] * len(full)
+                            break
+                        for k, (u, v) in enumerate(zip(pert, full)):
+                            okk = torch.isfinite(u) & torch.isfinite(v)
+                            if not bool(okk.all()):
+                                worst[k] = float("inf")
+                            elif bool(okk.any()):
+                                worst[k] = max(worst[k], float(((u[okk] - v[okk]).abs() / (1 + v[okk].abs())).max()))
+                    noise_floor.append(worst)
+                return noise_floor[0]
+
             def cmp(a, bb, what):
                 for k, (u, v) in enumerate(zip(a, bb)):
                     fu, fv = torch.isfinite(u), torch.isfinite(v)
@@ -165,6 +188,10 @@ def run_case(case):
                     if bool(ok.any()):
                         err = (u[ok] - v[ok]).abs() / (1 + v[ok].abs())
                         e = float(err.max())
+                        if e > tol and e <= tol + 16 * noise()[k]:
+                            res.labels.append("ill_conditioned")     # explained by rounding times the measured conditioning
+                            res.inconclusive += 1
+                            return True
                         res.see_ratio(e, tol)
                         if e > tol:
                             res.fail("batch_dependence", site, "%s: result %d differs by %.3g relative (tol %.1g)" % (what, k, e, tol),
